@@ -351,6 +351,9 @@ class Schema:
                   # tags / attributes of a union of entity types (permissive mode): present in one member type only
                   ['hasTag', ['if', cond, f1, f2], lit(gen.vstr('k'))], ['hasTag', ['if', cond, f2, f1], lit(gen.vstr('t'))],
                   ['has', ['if', cond, f1, f2], S(r.choice(['a', 'b', 'k', 'name', 'n']))], ['hasTag', E, lit(gen.vstr('k'))]]
+        # `is` over a union of entity types (permissive mode): true of one member type only, whichever position that type has in the union
+        U = r.choice([['if', cond, f1, f2], ['if', cond, f2, f1]])
+        guards += [['is', U, S(t1)], ['is', U, S(t2)], ['is', U, S(min(t1, t2))], ['isIn', U, S(min(t1, t2)), f1], ['not', ['is', U, S(min(t1, t2))]]]
         if opt:
             base, key, t = r.choice(opt)
             guards.append(['has', base, S(key)])
@@ -379,6 +382,8 @@ class Schema:
             bads = [['gt', ['access', ['access', G[1], S('undeclared')], S('min')], lit(gen.vlong(3))], ['like', ['access', G[1], S('undeclared')], ['pat', S('adm'), ['w']]],
                     ['gt', ['access', G[1], S('undeclared')], lit(gen.vlong(0))]] + bads[:2]
         BAD = r.choice(bads)
-        body = r.choice([['if', G, BAD, lit(gen.vbool(False))], ['and', G, BAD], ['or', ['not', G], BAD], ['if', ['not', G], lit(gen.vbool(True)), BAD]])
+        # BAD sits where only a guard that is (wrongly) typed False hides it - or, dually, where only a guard (wrongly) typed True does
+        body = r.choice([['if', G, BAD, lit(gen.vbool(False))], ['and', G, BAD], ['or', ['not', G], BAD], ['if', ['not', G], lit(gen.vbool(True)), BAD],
+                         ['if', G, lit(gen.vbool(True)), BAD], ['or', G, BAD], ['and', ['not', G], BAD], ['if', ['not', G], BAD, lit(gen.vbool(False))]])
         return ['policy', S('p'), r.choice(['permit', 'forbid']), ['is', S(env[0])], ['eq', gen.vent('Action', a)], ['is', S(env[2])],
                 ['conds', ['when', body]], ['annots']]
